@@ -2,9 +2,9 @@ package main
 
 // Registry of checks: which harness runs on which configurations per tier.
 
-const nCoreTables = 18
+const nCoreTables = 24
 
-func curlyOnly(tbl int) bool { return tbl == 2 || tbl == 3 || tbl == 6 }
+func curlyOnly(tbl int) bool { return tbl == 2 || tbl == 3 || tbl == 6 || tbl == 18 || tbl == 22 }
 func hasMedia(tbl int) bool  { return tbl == 8 || tbl == 9 }
 
 var commonAssumptions = []string{
@@ -103,7 +103,7 @@ func properties() map[string]*propDef {
 		ID: "C18",
 		Items: func(tier string, seed int) []item {
 			var out []item
-			for _, tbl := range []int{0, 1, 7, 8, 9, 10, 15, 16} {
+			for _, tbl := range []int{0, 1, 7, 8, 9, 10, 15, 16, 19, 21} {
 				out = append(out, item{Harness: "H_C18", Cfg: []int{tbl, 0}})
 				if hasMedia(tbl) {
 					out = append(out, item{Harness: "H_C18", Cfg: []int{tbl, 1}})
@@ -111,7 +111,7 @@ func properties() map[string]*propDef {
 			}
 			return out
 		},
-		Bounds:         map[string]interface{}{"path_bytes": 12, "segments": 3, "method_bytes": 7, "content_type_bytes": 6, "accept_bytes": 8, "tables": 8},
+		Bounds:         map[string]interface{}{"path_bytes": 12, "segments": 3, "method_bytes": 7, "content_type_bytes": 6, "accept_bytes": 8, "tables": 10},
 		Assumptions:    commonAssumptions,
 		Rule:           "core tables of the common fragment (literal roots, literal/plain-variable segments) x stage; twin containers (CurlyRouter, RouterJSR311) get the same symbolic request",
 		RequiredCovers: []string{"invoked", "not-invoked"},
@@ -125,7 +125,7 @@ func properties() map[string]*propDef {
 					continue // duplicate (method, template) pair / root paths of the same shape: excluded by the statement
 				}
 				for router := 0; router < 2; router++ {
-					if router == 1 && (curlyOnly(tbl) || (tbl >= 11 && tbl <= 14)) {
+					if router == 1 && (curlyOnly(tbl) || (tbl >= 11 && tbl <= 14) || tbl == 20) {
 						continue // RouterJSR311: route level and literal roots only
 					}
 					perms := []int{1}
@@ -151,14 +151,14 @@ func properties() map[string]*propDef {
 		ID: "C17",
 		Items: func(tier string, seed int) []item {
 			var out []item
-			for _, tbl := range []int{0, 1, 7, 10, 16} {
+			for _, tbl := range []int{0, 1, 7, 10, 16, 19, 21} {
 				for router := 0; router < 2; router++ {
 					out = append(out, item{Harness: "H_C17", Cfg: []int{tbl, router}})
 				}
 			}
 			return out
 		},
-		Bounds:         map[string]interface{}{"path_bytes": 12, "segments": 3, "methods": "all methods of the table plus one foreign method", "tables": 5},
+		Bounds:         map[string]interface{}{"path_bytes": 12, "segments": 3, "methods": "all methods of the table plus one foreign method", "tables": 7},
 		Assumptions:    commonAssumptions,
 		Rule:           "tables of the fragment (literal roots incl. nested, literal/plain-variable segments) x routers; per symbolic URL one dispatch per method, one OPTIONS dispatch through OPTIONSFilter, and a filter-less twin",
 		RequiredCovers: []string{"405", "options-nonempty"},
